@@ -165,7 +165,16 @@ def check_sub_symbols(ctx):
         a = arms["Expr"]
         p = positional_params(a.node)
         r = returned_exprs(a.node)
-        ctx.check(len(r) == 1 and norm(r[0]) == f"{p[0]}.subs({p[1]})", R3, a.key, "expressions: .subs(map)", f"the Expr arm returns {short(r[0]) if r else None}, not parameter.subs(symbols_map)", a)
+        c = r[0] if len(r) == 1 else None
+        is_subs = isinstance(c, ast.Call) and isinstance(c.func, ast.Attribute) and c.func.attr in ("subs", "xreplace") and norm(c.func.value) == p[0] and c.args and norm(c.args[0]) == p[1]
+        ctx.check(bool(is_subs), R3, a.key, "expressions: .subs(map)", f"the Expr arm returns {short(r[0]) if r else None}, not parameter.subs(symbols_map)", a)
+        if is_subs:
+            # sibling agreement: the Symbol arm is a dictionary lookup, i.e. every symbol is replaced by its own value at once;
+            # the Expr arm must mean the same for the same map (sympy's plain subs applies the pairs one after the other, so
+            # with {x: y, y: 1} a bare parameter x becomes y while 2*x becomes 2.0)
+            sim = kwarg(c, "simultaneous")
+            simultaneous = c.func.attr == "xreplace" or (sim is not None and isinstance(sim, ast.Constant) and sim.value is True)
+            ctx.check(simultaneous, R3, a.key + ":simultaneous", "the Expr arm replaces all symbols at once, like the Symbol arm's lookup", f"{short(c)} applies the map's pairs sequentially while the Symbol arm looks each symbol up once: for a map whose values mention other keys ({{x: y, y: 1.0}}) RX(x) binds to RX(y) but RX(2*x) to RX(2.0) -- binding no longer commutes with evaluating and substituting", a)
     if "Symbol" in arms:
         a = arms["Symbol"]
         p = positional_params(a.node)
